@@ -8,7 +8,7 @@ META = {
     "technique": "Coq proof over R of admissibility of the force law (Model/ConstraintUpdate.v, shared with C12) and of the pyramid "
                  "decode / contact-force slice laws + float correspondence runs against mj_constraintUpdate_impl, mj_contactForce, "
                  "mju_encodePyramid/mju_decodePyramid + admissibility oracle on efc_force after mj_forward for every solver and cone",
-    "text": "TEXT-PENDING",
+    "text": "PROVED over R for the model Model/ConstraintUpdate.v of the force law mj_constraintUpdate_impl (shared with C12), for every row composition, contact dimension and residual vector meeting cu_wf with positive efc_D and non-zero friction coefficients: C11_admissible — friction-loss rows |f| <= frictionloss; limit, frictionless and pyramidal rows f >= 0; elliptic contacts f0 >= 0 and sum_j (f_j/friction_j)^2 <= f0^2 in every zone (equality in the middle zone); the three row kinds also separately (C11_friction_bound, C11_unilateral, C11_elliptic). C11_decode_cone: mju_decodePyramid of non-negative edge forces lies in the friction pyramid; C11_decode_encode: decode(encode(f)) = f exactly on the forces with f[i+1]/mu[i] <= f[0]/(dim-1) (encodePyramid clips from above only, so it is NOT an inverse outside that set — observed on about a quarter of the engine's pyramidal contacts; no property clause depends on it); C11_contact_force: mj_contactForce for elliptic cones is the zero-padded efc_force slice at efc_address with the contact's adhesion subtracted from the normal. TIED: float runs of the model against mj_constraintUpdate_impl (engine states), mj_contactForce, mju_decodePyramid, mju_encodePyramid; and the observation that after CG/Newton efc_force equals the force law at jar = J*qacc - aref (1e-6). ORACLE on implementation output after mj_forward on mjgen models for PGS, CG, Newton x pyramidal, elliptic (with noslip, islands on/off, adhesion on some seeds): all inequalities with 1e-9 slack, qfrc_constraint = J' efc_force (mj_mulJacTVec, 1e-9), mj_contactForce consistent with efc_force. NOT PROVED: that the PGS / noslip iterates are admissible (projectCone is C10's subject) and that solvers terminate with the force-law output — both are observed by the oracle/tie only; qfrc_constraint = J' f is oracle only; floating-point rounding.",
     "note": "Trusted: Coq kernel + std-lib real-number axioms; hand-written model Model/ConstraintUpdate.v; correspondence harness "
             "(gcc, drivers c11_forces.c / c12_update.c, Coq PrimFloat evaluation). IEEE rounding is outside every theorem.",
     "assumptions": ["theorems are over the real numbers; float runs of the same definitions are compared with a scaled tolerance",
